@@ -196,6 +196,64 @@ fn roundtrip_sweep(rep: &mut Report) {
 
 const REDUCED: [u8; 5] = [0x00, 0x01, 0x7F, 0x80, 0xFF];
 
+/// Longer decoder inputs built from run-length syntax: k repetitions of one run descriptor, for
+/// run descriptors around the size limits, optionally followed by a truncated / dangling tail.
+pub fn structured_family() -> Vec<Vec<u8>> {
+    fn varint(mut v: u64) -> Vec<u8> {
+        let mut out = Vec::new();
+        loop {
+            let b = (v & 127) as u8;
+            v >>= 7;
+            if v == 0 {
+                out.push(b);
+                break;
+            }
+            out.push(b | 128);
+        }
+        out
+    }
+    let legit = LEGIT_EXPANSION as u64;
+    let mut runs: Vec<Vec<u8>> = Vec::new();
+    for len in [1u64, 127, 128, 65_535, 65_537, legit / 4, legit / 2, legit - 1, legit, legit + 1, 2 * legit, 1 << 27] {
+        runs.push(varint((len << 2) | 1)); // run of 0x00
+        runs.push(varint((len << 2) | 3)); // run of 0xFF
+    }
+    // literal runs (the bytes follow)
+    for len in [1u64, 3, 200] {
+        let mut v = varint(len << 1);
+        v.extend(std::iter::repeat(0x5Au8).take(len as usize));
+        runs.push(v);
+    }
+    let mut out = Vec::new();
+    for r in &runs {
+        for k in [1usize, 2, 3, 4, 5, 8, 16, 40, 129] {
+            let mut s = Vec::new();
+            for _ in 0..k {
+                s.extend_from_slice(r);
+            }
+            out.push(s.clone());
+            let mut t = s.clone();
+            t.push(0x80); // dangling varint
+            out.push(t);
+            let mut u = s;
+            u.extend_from_slice(&[0x06, 0x01]); // literal run announcing more bytes than follow
+            out.push(u);
+        }
+    }
+    // mixtures: every ordered pair of run descriptors, twice
+    for a in &runs {
+        for b in &runs {
+            let mut s = Vec::new();
+            for _ in 0..2 {
+                s.extend_from_slice(a);
+                s.extend_from_slice(b);
+            }
+            out.push(s);
+        }
+    }
+    out
+}
+
 pub fn space_size(max_full: usize, reduced: bool) -> u64 {
     let mut n = 0u64;
     for l in 0..=max_full {
@@ -203,6 +261,7 @@ pub fn space_size(max_full: usize, reduced: bool) -> u64 {
     }
     if reduced {
         n += 5u64.pow(4) + 5u64.pow(5);
+        n += structured_family().len() as u64;
     }
     n
 }
@@ -231,6 +290,10 @@ pub fn nth_string(mut i: u64, max_full: usize) -> Vec<u8> {
             return v;
         }
         i -= c;
+    }
+    let fam = structured_family();
+    if (i as usize) < fam.len() {
+        return fam[i as usize].clone();
     }
     panic!("index out of the string space");
 }
@@ -372,7 +435,7 @@ fn totality_sweep(rep: &mut Report, max_full: usize) {
             prop: "C14".into(),
             kind: kind.to_owned(),
             detail: format!("decode(reference {:?}, {:02x?}): {}", v["reference"], bytes, v["detail"].as_str().unwrap_or("")),
-            class: format!("bytes-len-{}", bytes.len()),
+            class: format!("bytes-len-{}", if bytes.len() > 5 { "long-structured".to_owned() } else { bytes.len().to_string() }),
             replay: json!({"engine": "codec-decode", "bytes": bytes, "reference": v["reference"]}),
         });
     }
@@ -380,7 +443,7 @@ fn totality_sweep(rep: &mut Report, max_full: usize) {
     rep.nontrivial.extend(a.6.iter().copied());
     rep.fingerprints.extend(a.6.iter().copied());
     rep.samples.push(json!({"decode": {"bytes": [0x80u8], "reference": []}}));
-    rep.parts.push(json!({"part": "decode totality: every byte string up to the full length, plus length 4-5 over {00,01,7F,80,FF}, each against 3 references, in child processes under a counting allocator",
+    rep.parts.push(json!({"part": "decode totality: every byte string up to the full length, plus length 4-5 over {00,01,7F,80,FF}, plus a structured family of longer strings (k repetitions and pairs of run descriptors around the size limits, with dangling tails), each against 3 references, in child processes under a counting allocator",
         "full_alphabet_max_len": max_full, "strings": total, "calls": total * 3, "returned_ok": a.0, "returned_err": a.1, "panicked": a.2, "over_alloc_bound": a.3, "children_died": a.7, "peak_allocation_max_bytes": a.4, "alloc_bound_bytes": ALLOC_BOUND, "distinct_outcome_classes": a.6.len()}));
 }
 
